@@ -48,6 +48,10 @@ def gen_cases(tier, seed):
                  max_iterations_per_step=2000, screening_step_size=float(rng.choice([0.1, 0.05, 0.2])), screening_step_drag=float(rng.choice([0.5, 0.7, 1.0])))
         if not o["adaptive"]:
             o.update(dt_init=5e-3, solve_time=0.4)
+        if k % 4 == 2:
+            # plain fixed-point iteration (no damping, no momentum) on a weakly screening film
+            o.update(screening_step_size=1.0, screening_step_drag=1.0)
+            dev["layer"]["lam"] = dev["layer"]["lam"] * 2.0
         drive = {"A": S.field_spec(rng, dev, o, ["uniform", "ramp", "uniform", "loop"][k % 4], b=float(rng.choice([0.15, 0.3]))),
                  "currents": S.current_spec(rng, dev, o, "const" if dev["terminals"] else "none", strength=0.1)}
         cases.append({"layer": "L2", "kind": "screening", "device": dev, "options": o, "drive": drive, "monitors": ["screening"], "cost": 60})
@@ -82,6 +86,13 @@ def gen_cases(tier, seed):
                  include_screening=True, screening_tolerance=1e-3, max_iterations_per_step=2000)
         drive = {"A": S.field_spec(rng, dev, o, "uniform", b=0.3), "currents": S.current_spec(rng, dev, o, "const" if dev["terminals"] else "none", strength=0.1)}
         cases.append({"layer": "L2", "kind": "off_seeded", "device": dev, "options": o, "drive": drive, "monitors": ["screening"], "cost": 20})
+    for k in range(1 if tier == "quick" else 5):
+        # second generation: options and seed re-loaded from the first run's file (flags come back as numpy scalars)
+        dev = _scr_device(rng, "tiny")
+        o = dict(solve_time=0.3, dt_init=1e-3, dt_max=0.05, adaptive=True, save_every=5, field_units="mT", current_units="uA", output="file",
+                 include_screening=True, screening_tolerance=1e-3, max_iterations_per_step=2000)
+        drive = {"A": S.field_spec(rng, dev, o, "ramp", b=0.3), "currents": S.current_spec(rng, dev, o, "const" if dev["terminals"] else "none", strength=0.1)}
+        cases.append({"layer": "L2", "kind": "reloaded_options", "device": dev, "options": o, "drive": drive, "monitors": ["screening"], "cost": 20})
     for k in range(6 if tier == "quick" else 40):
         cases.append({"layer": "L1", "n": 60 if tier == "quick" else 150, "seed": int(rng.integers(1 << 30)), "cost": 10})
     return cases
@@ -181,15 +192,30 @@ def run_case(spec):
         spec["kind"] = "off"
         spec["seeded"] = True
         run_kwargs = dict(device=r0.device, seed_solution=r0.solution)
+    if spec["kind"] == "reloaded_options":
+        import copy
+
+        import tdgl
+
+        r0 = sim.run_sim(spec, [], keep_dir=True)
+        if r0.refused:
+            return {"violations": [], "counters": {"refused_mesh": 1}, "classes": ["refused"], "nontrivial": False}
+        if r0.exception is not None or r0.solution is None:
+            return {"status": "harness_error", "error": "first-generation run failed: " + repr(r0.exception)[:200]}
+        loaded = tdgl.Solution.from_hdf5(r0.solution.path)
+        spec = copy.deepcopy(spec)
+        spec["kind"] = "screening"
+        spec["second_generation"] = True
+        run_kwargs = dict(device=r0.device, seed_solution=loaded, options_obj=loaded.options)
     out = S.run_sim_case(spec, "C13", extra_listeners=[tm], post=post, **run_kwargs)
     if run_kwargs:
         import shutil
 
         shutil.rmtree(r0.outdir, ignore_errors=True)
-        out.setdefault("counters", {})["seeded_screening_off_runs"] = 1
+        out.setdefault("counters", {})["second_generation_runs" if spec.get("second_generation") else "seeded_screening_off_runs"] = 1
     if out.get("status") == "harness_error":
         return out
     C = out["counters"]
-    out["classes"] = ["L2/" + spec["kind"], "tol=%g" % spec["options"].get("screening_tolerance", 0), "length_units=" + spec["device"].get("length_units", "um"), "weak_field=" + str(bool(spec.get("weak"))), "seeded=" + str(bool(spec.get("seeded")))] + S.classes_of(spec)[:4]
+    out["classes"] = ["L2/" + spec["kind"], "tol=%g" % spec["options"].get("screening_tolerance", 0), "length_units=" + spec["device"].get("length_units", "um"), "weak_field=" + str(bool(spec.get("weak"))), "seeded=" + str(bool(spec.get("seeded"))), "reloaded_options=" + str(bool(spec.get("second_generation")))] + S.classes_of(spec)[:4]
     out["nontrivial"] = C.get("accepted_steps_checked", 0) >= 5 or C.get("nonconvergence_runs", 0) > 0 or C.get("zero_induced_checks", 0) > 5
     return out
